@@ -2,6 +2,7 @@ import Resolvo.Oracles
 import Resolvo.Enc.ReferenceProofs
 import Resolvo.MDet.AsyncProofs
 import Resolvo.MDet.AsyncInv
+import Resolvo.MDet.AsyncOnce
 /-!
 # C10 / C11 — asynchronous metadata requests
 
@@ -19,6 +20,9 @@ order, provider call log (request start `c`/`d`, answer obtained `C`/`D`, cancel
 * C11, one future: `req_future_starts_every_version_set` — one poll of the future of a requirement starts *every*
   version set of it (finished, request issued, or listening to a request in flight): requests are never issued one
   after the other's answer;
+* C10, run level: `at_most_once_candidates` — along every run of the encoder loop no package's candidates are requested
+  twice (`asyncStep_cinv` + `callbacks_issue_nothing`: the frame lemmas of `MDet/Frame.lean` show that clause generation
+  never touches the provider cache);
 * C10, one await: `request_only_if_unknown`, `listener_issues_nothing` — a `get_candidates` request is issued only
   when the answer is neither cached nor in flight and is marked in flight from then on; an await that finds a
   request in flight issues nothing;
@@ -63,6 +67,22 @@ def exP : Problem := { reqs := [.single 0, .single 1] }
     (and the two requirement futures are next in the ready queue) — nothing has been answered yet -/
 example : ∃ a s, Reach exU exP a s ∧ a.gates.map (·.1) = ["c0", "c1"] ∧ a.ready = [3, 4] ∧ s.fetchedCands = [] :=
   ⟨_, _, .step (.step (.step (.start { queue := [.deps none], asyncMode := true }) rfl) rfl) rfl, rfl, rfl, rfl⟩
+
+/-- C10 (run level, model): along every run of the encoder loop - any universe, problem, completion order - no
+    package's candidates are requested twice, and every requested package is answered or still in flight -/
+theorem at_most_once_candidates {U : Universe} {P : Problem} {s0 : S} {a : AS} {s : S}
+    (h0 : s0.issuedCands.Nodup) (h1 : ∀ n ∈ s0.issuedCands, n ∈ s0.fetchedCands) (h : ReachFrom U P s0 a s) :
+    s.issuedCands.Nodup ∧ ∀ n ∈ s.issuedCands, n ∈ s.fetchedCands ∨ (a.inflight.lookup n).isSome = true :=
+  candidates_requested_at_most_once h0 h1 h
+
+/-- the encoder's callbacks (clause generation) never issue a provider request nor touch what has been answered -/
+theorem callbacks_issue_nothing (U : Universe) (P : Problem) (r : TaskResult) : Preserves cacheView (runCallback U P r) :=
+  pres_runCallback U P r
+
+/-- non-vacuity of `at_most_once_candidates`: a fresh solve (nothing requested) meets the hypotheses, and after three
+    steps on the two-requirement root both packages are recorded as requested, once each -/
+example : ∃ a s, ReachFrom exU exP { queue := [.deps none], asyncMode := true } a s ∧ s.issuedCands = [1, 0] :=
+  ⟨_, _, .step (.step (.step .start rfl) rfl) rfl, rfl⟩
 
 /-- C10 (one await) -/
 theorem request_guard (U : Universe) (tid n : Nat) (a : AS) (s s' : S) (a' : AS)
